@@ -17,6 +17,7 @@ def level_ok(keypred, name):
 def run(prog, chk):
     insert_table(prog, chk)
     reset_table(prog, chk)
+    prepend_table(prog, chk)
     _run(prog, chk)
 
 
@@ -347,3 +348,54 @@ def reset_table(prog, chk):
         chk.ob("C16.resetstate", inst, ok,
                "expected: no signature, previous leaf = the original one, a new builder with the metadata then the masking processor; source: "
                "status %s, signature %s, previous leaf %s, builder %s, processors %s" % (q.ret, sig, prev, bld, procs), loc=fn.loc(), fn=fn)
+
+
+def prepend_table(prog, chk):
+    """Block signer / local aggregation: the root of the local tree was sent to the aggregator as a request of level R (the absolute
+    level of that root: the leaf's own level plus the height of its chain), and the aggregator put R into the level correction of its
+    first link.  When the leaf's chain is put in front, exactly R has to be taken out again, otherwise every level from the
+    aggregator's chain upwards is off and the assembled signature does not verify for that leaf.
+    KSI_SignatureBuilder_appendAggregationChain is evaluated for (start level of the leaf, height of its chain)."""
+    from ksirules.interp import TOP, Interp, Ptr, succeed_model
+    from ksirules.model import lvalue_key, strip
+    chk.rule("C16.prepend", "prepending a leaf's chain removes exactly the absolute root level of that chain from the aggregator's first link", floor=7)
+    fn = prog.fn("KSI_SignatureBuilder_appendAggregationChain", "signature_builder.c")
+    bp, ap = fn.params[0]["n"], fn.params[1]["n"]
+    for start, height, agg_ok in ((0, 0, 1), (0, 3, 1), (3, 0, 1), (3, 2, 1), (1, 1, 1), (200, 55, 1), (7, 0, 1), (3, 2, 0)):
+        seen = {"agg": [], "sub": [], "app": []}
+
+        def aggregate(I, p, node, args):
+            seen["agg"].append((args[0], args[1]))
+            if not agg_ok:
+                return 0x10a
+            a2 = strip(node["a"][2])
+            if isinstance(a2, dict) and a2.get("k") == "un" and a2["op"] == "&":
+                I.write(p, lvalue_key(a2["e"], I.fn), (args[1] + height) if isinstance(args[1], int) else TOP)
+            return 0
+
+        def sub(I, p, node, args):
+            seen["sub"].append((args[0], args[1]))
+            return 0
+
+        def app(I, p, node, args):
+            seen["app"].append((args[0], args[1]))
+            return 0
+        ov = {"KSI_AggregationHashChain_aggregate": aggregate, "subRootLevel": sub, "appendAggregationChain": app}
+        inputs = {bp: Ptr("B"), ap: Ptr("CHAIN"), "B->ctx": Ptr("ctx"), "B->sig": Ptr("SIG"), "B->aggrStartLevel": start}
+        I = Interp(fn, inputs=inputs, call_model=succeed_model(prog, ov), on_unknown="stop", prog=prog)
+        paths = I.run()
+        chk.paths += len(paths)
+        inst = "appendAggregationChain[leaf level %d, chain height %d%s]" % (start, height, "" if agg_ok else ", aggregation fails")
+        if len(paths) != 1 or paths[0].undetermined:
+            raise AnalysisBroken("KSI_SignatureBuilder_appendAggregationChain: evaluation not determined for %s: %s" % (inst, [q.undetermined[:1] for q in paths]))
+        q = paths[0]
+        root = start + height
+        if not agg_ok:
+            ok = q.ret not in (0, TOP) and not seen["sub"] and not seen["app"]
+            want = "an error, nothing removed, nothing prepended"
+        else:
+            want_sub = [(Ptr("SIG"), root)] if root else []
+            ok = q.ret == 0 and seen["agg"] == [(Ptr("CHAIN"), start)] and seen["sub"] == want_sub and seen["app"] == [(Ptr("SIG"), Ptr("CHAIN"))]
+            want = "the chain aggregated from level %d, %s, chain prepended" % (start, "level %d removed from the aggregator's first link" % root if root else "nothing to remove")
+        chk.ob("C16.prepend", inst, ok, "expected %s; source: aggregate %s, removed %s, prepended %s, status %s"
+               % (want, seen["agg"], seen["sub"], seen["app"], q.ret), loc=fn.loc(), fn=fn, nontrivial=start > 0)
